@@ -82,6 +82,12 @@ def mapM' {α β} (f : α → Outcome β) : List α → Outcome (List β)
     | err e => err e
     | panic s => panic s
 
+@[simp] theorem ok_bind' {α β} (a : α) (f : α → Outcome β) : (ok a >>= f) = f a := rfl
+@[simp] theorem pure_bind' {α β} (a : α) (f : α → Outcome β) : ((pure a : Outcome α) >>= f) = f a := rfl
+@[simp] theorem err_bind' {α β} (e) (f : α → Outcome β) : ((err e : Outcome α) >>= f) = err e := rfl
+@[simp] theorem panic_bind' {α β} (s) (f : α → Outcome β) : ((panic s : Outcome α) >>= f) = panic s := rfl
+@[simp] theorem pure_eq_ok {α} (a : α) : (pure a : Outcome α) = ok a := rfl
+
 @[simp] theorem bind_ok {α β} (a : α) (f : α → Outcome β) : (ok a).bind f = f a := rfl
 @[simp] theorem bind_err {α β} (e) (f : α → Outcome β) : (err e : Outcome α).bind f = err e := rfl
 @[simp] theorem bind_panic {α β} (s) (f : α → Outcome β) : (panic s : Outcome α).bind f = panic s := rfl
